@@ -2,6 +2,7 @@ import GdcVerif.Model.JpegAddr
 import GdcVerif.Lemmas.JpegAddr
 import GdcVerif.Lemmas.JpegAddrFull
 import GdcVerif.Lemmas.JpegAc
+import GdcVerif.Lemmas.JpegDri
 /-!
   C15 — JPEG DCT streams and decoders agree with an independent implementation.  PARTIAL.
 
@@ -18,6 +19,7 @@ import GdcVerif.Lemmas.JpegAc
     exactly before MCUs Ri, 2Ri, … (T.81 E.1.4).
   * `c15_ac_runlength_roundtrip`: the decoder's AC run/size loop inverts the encoder's for every coefficient block
     (symbol level; tied to baseline.Decode by `jpg-acblock`, to the reference encoder by `jpg-acsyms`).
+  * `c15_dri_value`: the generated parseDRI expression is the 16-bit Ri (typed 8-bit shift semantics).
   * `c15_repack_tight`: DecodeSimple's grey row copy reads inside Pix and fills width·height samples bijectively.
 -/
 namespace JpegAddr
@@ -82,6 +84,14 @@ theorem c15_restart_intervals (pre rest cur : List Nat) (acc : List (List Nat)) 
 example : scanIntervals 2 [0x12, 0xFF, 0x00, 0x34, 0xFF, 0xD3, 0x56, 0xFF, 0xD9, 0x99] = [[0x12, 0xFF, 0x00, 0x34], [0x56]] ∧
     scanIntervals 0 [0x12, 0xFF, 0x00, 0x34, 0xFF, 0xD3, 0x56, 0xFF, 0xD9, 0x99] = [[0x12, 0xFF, 0x00, 0x34, 0x56]] ∧
     mcuInterval 3 7 = (2, false) ∧ mcuInterval 3 6 = (2, true) := by decide
+
+/-- (2') the restart interval parseDRI stores (GENERATED right-hand side of `d.restartInt = …`; go2lean gives a shift
+    whose left operand is a byte the 8-bit wrap Go gives it) is the 16-bit big-endian value Ri of T.81 B.2.4.4 for every
+    pair of bytes — in particular for Ri ≥ 256.  `int(data[0]<<8)` instead of `int(data[0])<<8` would translate to
+    `Go.uwrap8 (Go.shl data_0 8) = 0` and lose the high byte (256 → 0, 300 → 44). -/
+theorem c15_dri_value (d0 d1 : Nat) (h0 : d0 < 256) (h1 : d1 < 256) :
+    Gen.JpegBaseline.parseDRI.restartInt (d0 : Int) (d1 : Int) = (d0 : Int) * 256 + d1 := dri_value d0 d1 h0 h1
+example : Gen.JpegBaseline.parseDRI.restartInt 1 44 = 300 ∧ Go.or (Go.uwrap8 (Go.shl 1 8)) 44 = 44 := by decide
 
 /-- (3) DecodeSimple's grey row copy (fix 5946dc5): for Stride ≥ width every read is inside the `pixLen` bytes
     image/jpeg's sub-image holds, every destination index is inside width·height, and distinct pixels go to
